@@ -120,8 +120,27 @@ def rewrite_fn(item, in_trait_impl, log):
         rtype = text[ts:te].strip()
         if not rtype.startswith("(ret__"):
             edits.append((ts, te, " (ret__: %s)\n" % rtype)); log.add("R3")
+    # R10: `mut self` receiver (unsupported by Verus) -> `self` + `let mut self__ = self;`, body uses self__
+    mut_self = False
+    for j in range(kfn, kbody):
+        if toks[j].kind == "ident" and toks[j].text == "mut":
+            nx = j + 1
+            while toks[nx].kind == "ws": nx += 1
+            if toks[nx].kind == "ident" and toks[nx].text == "self":
+                edits.append((toks[j].s, toks[nx].s, ""))
+                mut_self = True
+            break
+        if toks[j].kind == "punct" and toks[j].text == ")":
+            break
     # W1: body brace on its own line
     edits.append((toks[kbody].s, toks[kbody].s, "\n"))
+    if mut_self:
+        log.add("R10")
+        edits.append((toks[kbody].e, toks[kbody].e, "\nlet mut self__ = self;"))
+        kend0 = match_forward(toks, kbody)
+        for j in range(kbody + 1, kend0):
+            if toks[j].kind == "ident" and toks[j].text == "self":
+                edits.append((toks[j].s, toks[j].e, "self__"))
 
     # walk the body: loops (W1) and destructuring assignments (R2), attributes (R7)
     kend_body = match_forward(toks, kbody)
